@@ -113,6 +113,80 @@ def late(sid, api, fault):
     return s.done()
 
 
+BADMODE = {"Lambda-Runtime-Function-Response-Mode": "buffered-please"}
+
+
+def during_upload(sid, first, second, bad_mode):
+    """the first submission for the current id is still uploading its body when a second one for the same id arrives
+    over another connection: the second is refused (403, the runtime is in its "response" state) and changes nothing -
+    also when it carries a response-mode header that would be refused for itself; the first completes, the caller gets
+    the first one's body"""
+    s = Scn(sid, ext=[], timeout_ms=1500, opWaitMs=6000)
+    s.meta(family="during-upload", first=first, second=second, bad_mode=bad_mode)
+    s.init()
+    s.await_exec(kind="rt")
+    tags = {"rt": s.poll("rt")}
+    s.round(tags, {})
+    it = s.invoke(size=5, seed=7)
+    s.wait(tags["rt"])
+    s.hold("drv.body:u1", 1)
+    kw1 = {"errType": "Function.First"} if first == "error" else {}
+    a = s.call("rt", first, async_=True, id="current", size=3000, seed=5, headers={"X-Verif-Slow-Body": "u1"}, **kw1)
+    s.until_held("drv.body:u1")
+    kw2 = {"errType": "Function.Second"} if second == "error" else {}
+    if bad_mode and second == "response":
+        kw2["headers"] = dict(BADMODE)
+    s.call("rt", second, id="current", body="second-submission", **kw2)
+    s.release("drv.body:u1")
+    s.wait(a)
+    tags["rt"] = s.poll("rt")
+    s.wait(it)
+    s.round(tags, {})
+    return s.done()
+
+
+def bad_mode(sid, point):
+    """a /response with a response-mode header other than "streaming": as a first submission it is answered 400 and the
+    caller gets the empty payload of the Runtime.InvalidResponseModeHeader error (the invocation then runs out of time:
+    the runtime cannot go on);
+    with a stale id, or after the response was posted, it is refused like any other and has no effect"""
+    s = Scn(sid, ext=[], timeout_ms=400, opWaitMs=6000)
+    s.meta(family="during-upload", point=point, bad_mode=True)
+    s.init()
+    s.await_exec(kind="rt")
+    tags = {"rt": s.poll("rt")}
+    s.round(tags, {})
+    it = s.invoke(size=5, seed=7)
+    s.wait(tags["rt"])
+    if point == "first":
+        s.call("rt", "response", id="current", body="never-delivered", headers=dict(BADMODE))
+        s.call("rt", "next")            # 403: the runtime is left in its "response" state
+        s.wait(it)
+        s.recover({})
+        return s.done()
+    if point == "stale":
+        s.call("rt", "response", id="stale:1", body="stale-bad-mode", headers=dict(BADMODE))
+    s.call("rt", "response", id="current", body="own-answer")
+    if point == "after-response":
+        s.call("rt", "response", id="current", body="dup-bad-mode", headers=dict(BADMODE))
+    tags["rt"] = s.poll("rt")
+    s.wait(it)
+    s.round(tags, {})
+    return s.done()
+
+
+def upload_scenarios(ctx):
+    out = []
+    n = 0
+    for first in ("response", "error"):
+        for second, bad in (("response", False), ("response", True), ("error", False)):
+            n += 1
+            out.append(during_upload("c02-up%d" % n, first, second, bad))
+    for point in ("first", "stale", "after-response"):
+        out.append(bad_mode("c02-mode-%s" % point, point))
+    return out
+
+
 def late_scenarios(ctx):
     out = []
     for i, (api, fault) in enumerate([("response", "ext-crash"), ("error", "ext-crash"), ("response", "ext-exit-error")]):
@@ -142,6 +216,7 @@ def run(ctx):
     ctx.assumptions += sc.ASSUME
     sc.run_families(ctx, scenarios(ctx), "stale")
     sc.run_families(ctx, late_scenarios(ctx), "late")
+    sc.run_families(ctx, upload_scenarios(ctx), "during-upload")
     ctx.coverage["exhaustive"] = not ctx.quick
 
 
